@@ -42,7 +42,7 @@ Definition xone (rec : str -> list xitem -> option (list piece)) (L : str) (i : 
       match src_of L' p with
       | Some (Some src) =>
           match rec L' src with
-          | Some body => match xargs rec L' args with Some a => Some (subst_pieces a (pc_norm body)) | None => None end
+          | Some body => match xargs rec L args with Some a => Some (subst_pieces a (pc_norm body)) | None => None end
           | None => None
           end
       | _ => None
@@ -85,7 +85,7 @@ Proof.
     match type of H with match src_of ?L' _ with _ => _ end = _ => set (L1 := L') in * end.
     destruct (src_of L1 (ns, path)) as [[src|]|]; try discriminate.
     destruct (r1 L1 src) as [body|] eqn:E; [|discriminate]. rewrite (Hle _ _ _ E).
-    destruct (xargs r1 L1 args) as [a'|] eqn:Ea; [|discriminate]. rewrite (xargs_mono _ _ _ _ _ Hle Ea). exact H.
+    destruct (xargs r1 L args) as [a'|] eqn:Ea; [|discriminate]. rewrite (xargs_mono _ _ _ _ _ Hle Ea). exact H.
 Qed.
 Lemma xseq_mono (one1 one2 : xitem -> option (list piece)) items d :
   (forall i a, one1 i = Some a -> one2 i = Some a) -> xseq one1 items = Some d -> xseq one2 items = Some d.
@@ -143,7 +143,7 @@ Proof.
   destruct (inline f0 L m) as [dm|] eqn:E; [|discriminate]. inversion H; subst. exists f0, dm. auto.
 Qed.
 Lemma inline_foreign_inv f L ns p args d : inline f L (PForeign ns p args) = Some d ->
-  exists f0, f = S f0 /\ ilook (inline f0) 2 (ns, p) args L = Some d.
+  exists f0, f = S f0 /\ ilook (inline f0) 2 (ns, p) args L L = Some d.
 Proof. destruct f as [|f0]; cbn [ForeignSound.inline]; intros H; [discriminate|]. exists f0. auto. Qed.
 
 (** the inherits walk stops at the default locale or at a locale that defines the target *)
@@ -162,7 +162,7 @@ Proof.
 Qed.
 
 (** a defined argument-less lookup: the target value, its locale, and how the locale was chosen *)
-Lemma ilook2_inv rec target L d : ilook rec 2 target [] L = Some d ->
+Lemma ilook2_inv rec target A L d : ilook rec 2 target [] A L = Some d ->
   exists L' T body, get_value_at vals L' target = Some (NVal T) /\ rec L' T = Some body
     /\ d = subst_pieces [] (pc_norm body)
     /\ ((L' = L) \/ (get_value_at vals L target = Some NDefault /\ L' = walk (S (length inherits)) [L] L target)).
